@@ -159,3 +159,16 @@ CLAIMED["C11"] = {
     "design_ref": "DESIGN.md §4 C11",
     "note": TB + " Quantifier over declarations is bounded by the corpus (fixtures/decls, integration tests, examples/desktop).",
 }
+
+CLAIMED["C16"] = {
+    "engine": "rustc x8 + manifest rule + E6 cross-configuration MIR differencing + event-word equality",
+    "technique": "type-check of all 8 feature sets; Cargo manifest rule; cross-configuration differencing of normalised MIR (ownership and non-interaction of features); equality of interprocedural event words between configurations after erasing the disabled facility",
+    "text": ("Decides for all 8 combinations: the library and its test targets type-check; the manifest forwards autocomplete/help to the macros "
+             "crate's same-named features and history to nothing; the functions removed / changed by a combination are exactly the union of what "
+             "its disabled features remove / change alone (no interaction), with the facility's items anchored; and the event words of "
+             "Cli::process_byte, Cli::write and Cli::set_prompt (every path and outcome) are identical to the full configuration's except that "
+             "Up/Down (history off) and Tab (autocomplete off) have the empty word, the history push disappears from Enter, and (help off) the "
+             "help decision disappears and every command is dispatched."),
+    "design_ref": "DESIGN.md §4 C16, §2 E6",
+    "note": TB + " The behaviour compared is the event-word abstraction (which operations, in which order, on which values), not concrete runs.",
+}
